@@ -19,6 +19,7 @@ func checkC20(c *Ctx) {
 	c.Rule("C20.2", "bars end to end: start(0)=0, start(k+1)=start(k)+len(k)*ticks32, song end = final sum", 1)
 	c.Rule("C20.3", "event placement: on = bar.start + ticks32*pos; off = on + ticks32*duration; a note-off is emitted iff the message is a note start with non-zero duration, on the same channel and key", 3)
 	c.Rule("C20.4", "deltas: in both exports every track is closed with songEnd - lastTickOfThatTrack, and event deltas are differences of consecutive ticks of a sequence sorted by tick", 4)
+	c.Rule("C20.7", "grid unit: the tick count of a 32nd note used for bar lengths and event positions is resolution/8", 1)
 	c.Rule("C20.5", "time-signature default: the 4/4 default of bar insertion and of the bar-line pass are the same constant", 1)
 	c.Rule("C20.6", "single- and multi-track export obtain bar-line and bar events from the same two producers with the same resolution argument", 1)
 
@@ -42,6 +43,45 @@ func checkC20(c *Ctx) {
 	if barLen == nil || t32 == nil || setAbs == nil || evAbs == nil || toSMF0 == nil || toSMF1 == nil {
 		c.Unk("C20.1", "sequencer anchors (Bar.Len, Ticks32th, SetBarAbsTicks, Event.AbsTicks, ToSMF0/1)", "-", "not resolved")
 		return
+	}
+	// ---- C20.7 the grid unit: ticks of a 32nd note = Round(resolution / 8) (exact for resolutions divisible by 8)
+	{
+		c.Fn(FuncName(t32))
+		ex := NewExec(p)
+		st := ex.NewState()
+		q := mkSym(ex.syms.Get("q", 16, false))
+		st.refineSym(q.T.Syms[0], 1, 65535)
+		ok, why, n := true, "", 0
+		for _, o := range ex.Call(st, t32, []Val{q}, nil) {
+			n++
+			if o.Panic {
+				ok, why = false, o.Msg
+				continue
+			}
+			iv, _ := o.Ret[0].(*IntV)
+			if iv == nil {
+				ok, why = false, "no integer result"
+				continue
+			}
+			// either an exact integer quotient q/8, or the rounded float monomial 0.125*q
+			want := o.St.Arith(token.QUO, o.St.Convert(q, 32, false), mkConst(8, 32, false), "")
+			if o.St.sameInt(iv, want) {
+				continue
+			}
+			sy, single := o.St.TermOf(iv).SingleSym()
+			if !single || ex.MonoOf[sy] == nil {
+				ok, why = false, "the ticks of a 32nd note are not resolution/8: "+iv.String()
+				continue
+			}
+			fv := ex.MonoOf[sy]
+			if fv.Rounded != "Round" && fv.Rounded != "" {
+				ok, why = false, "resolution/8 is not rounded to nearest: "+fv.Rounded
+			}
+			if !monoEq(fv.Mono, monoWant(0.125, map[string]int{"q": 1})) {
+				ok, why = false, fmt.Sprintf("the ticks of a 32nd note are computed as %s, a 32nd note is resolution/8 ticks", fv.Mono)
+			}
+		}
+		c.Check(ok && n > 0, "C20.7", "ticks of a 32nd note = resolution / 8", p.Pos(t32.Pos()), "symbolic resolution: Round(resolution/8)", why)
 	}
 	// ---- C20.1
 	c.Fn(FuncName(barLen))
